@@ -88,7 +88,8 @@ fn check_word(word: &[usize], gens: &[Gen], r: &mut Report) {
             let want = apply_d(&ad, apply_d(&bd, p.map(|x| x as f64)));
             let mag = want.iter().fold(1.0f64, |a, x| a.max(x.abs())).max(ad.iter().flatten().chain(bd.iter().flatten()).fold(0.0, |a: f64, x| a.max(x.abs())));
             for k in 0..3 {
-                if (got[k] as f64 - want[k]).abs() > 1e-4 * mag || (seq[k] as f64 - want[k]).abs() > 1e-4 * mag || gotp[k] != got[k] {
+                r.margin("compose-apply", (got[k] as f64 - want[k]).abs().max((seq[k] as f64 - want[k]).abs()), 1e-5 * mag);
+                if (got[k] as f64 - want[k]).abs() > 1e-5 * mag || (seq[k] as f64 - want[k]).abs() > 1e-5 * mag || gotp[k] != got[k] {
                     r.violation(key("compose-apply"), format!("probe {p:?}: compose(A,B).apply = {got:?}, A.apply(B.apply) = {seq:?}, apply_pt = {gotp:?}, f64 A(Bv) = {want:?}"), case());
                     return;
                 }
@@ -105,7 +106,8 @@ fn check_word(word: &[usize], gens: &[Gen], r: &mut Report) {
     // determinant vs f64 cofactor determinant of the linear part
     let dref = det3(&mf);
     let had: f64 = (0..3).map(|i| (0..3).map(|j| mf[i][j] * mf[i][j]).sum::<f64>().sqrt()).product();
-    if ((m.determinant() as f64) - dref).abs() > 1e-4 * dref.abs() + 64.0 * f32::EPSILON as f64 * had { r.violation(key("determinant"), format!("determinant() = {}, f64 = {dref}", m.determinant()), case()); return; }
+    r.margin("determinant", ((m.determinant() as f64) - dref).abs(), 1e-5 * dref.abs() + 16.0 * f32::EPSILON as f64 * had);
+    if ((m.determinant() as f64) - dref).abs() > 1e-5 * dref.abs() + 16.0 * f32::EPSILON as f64 * had { r.violation(key("determinant"), format!("determinant() = {}, f64 = {dref}", m.determinant()), case()); return; }
     let Some(invd) = inv_affine(&mf) else { r.h("singular-skipped"); return; };
     let cond = fro3(&mf) * fro3(&invd) / 3.0;
     if cond > 1e3 { r.h("cond>1e3-skipped"); return; }
@@ -123,6 +125,7 @@ fn check_word(word: &[usize], gens: &[Gen], r: &mut Report) {
             // backward-stable bound: entries of the f32 inverse are accurate relative to their row's magnitude
             let s: f64 = 4.0 * (0..4).map(|k| a[i][k].abs()).fold(0.0, f64::max) * (0..4).map(|k| b[k][j].abs()).fold(0.0, f64::max);
             let tol = tol.max(16.0 * f32::EPSILON as f64 * cond.max(1.0) * s);
+            r.margin("inverse", (prod[i][j] - e).abs(), tol);
             if !((prod[i][j] - e).abs() <= tol) {
                 let pivot0 = mf[0][0] == 0.0;
                 r.violation(key(if pivot0 { "inverse|zero-leading-pivot" } else { "inverse" }), format!("{nm}[{i}][{j}] = {} (cond~{cond:.1}); M = {:?}; inverse() = {:?}", prod[i][j], m.0, inv.0), case());
@@ -138,12 +141,14 @@ fn check_word(word: &[usize], gens: &[Gen], r: &mut Report) {
     if word.len() == 1 && gens[word[0]].rotation {
         // rotations: lengths, handedness, transpose = inverse
         let t = m.transpose();
+        r.margin("rotation-det", (dref - 1.0).abs(), 4e-6);
         if (dref - 1.0).abs() > 4e-6 { r.violation(key("rotation-det"), format!("det = {dref}"), case()); return; }
-        for a in 0..3 { for b in 0..3 { let d: f64 = (0..3).map(|k| mf[k][a] * mf[k][b]).sum(); if (d - if a == b { 1.0 } else { 0.0 }).abs() > 4e-6 { r.violation(key("rotation-orthonormal"), format!("columns {a},{b} have dot product {d}"), case()); return; } } }
-        for i in 0..4 { for j in 0..4 { if (t.0[i][j] - inv.0[i][j]).abs() > 1e-5 { r.violation(key("rotation-transpose"), format!("transpose != inverse at [{i}][{j}]: {} vs {}", t.0[i][j], inv.0[i][j]), case()); return; } } }
+        for a in 0..3 { for b in 0..3 { let d: f64 = (0..3).map(|k| mf[k][a] * mf[k][b]).sum(); r.margin("rotation-orthonormal", (d - if a == b { 1.0 } else { 0.0 }).abs(), 4e-6); if (d - if a == b { 1.0 } else { 0.0 }).abs() > 4e-6 { r.violation(key("rotation-orthonormal"), format!("columns {a},{b} have dot product {d}"), case()); return; } } }
+        for i in 0..4 { for j in 0..4 { r.margin("rotation-transpose", (t.0[i][j] - inv.0[i][j]).abs() as f64, 1e-5); if (t.0[i][j] - inv.0[i][j]).abs() > 1e-5 { r.violation(key("rotation-transpose"), format!("transpose != inverse at [{i}][{j}]: {} vs {}", t.0[i][j], inv.0[i][j]), case()); return; } } }
         for p in probes() {
             let v = vec3(p[0], p[1], p[2]);
             let w = m.apply(&v);
+            r.margin("rotation-length", (w.len() - v.len()).abs() as f64, 1e-5 * (1.0 + v.len() as f64));
             if ((w.len() - v.len()).abs() as f64) > 1e-5 * (1.0 + v.len() as f64) { r.violation(key("rotation-length"), format!("|R v| = {} but |v| = {}", w.len(), v.len()), case()); return; }
         }
     }
@@ -167,6 +172,7 @@ fn check_constructors(r: &mut Report) {
             ];
             for (nm, m, want) in cases {
                 let got = m.apply_pt(&pt3(p[0], p[1], p[2])).0;
+                r.margin("ctor-rotate", (0..3).map(|i| (got[i] as f64 - want[i]).abs()).fold(0.0, f64::max), 1e-5 * 10.0);
                 if (0..3).any(|i| (got[i] as f64 - want[i]).abs() > 1e-5 * 10.0) { r.violation(format!("ctor|{nm}({a})|{p:?}"), format!("{nm}({a} deg) maps {p:?} to {got:?}, expected {want:?}"), obj! {"kind" => "ctor"}); }
             }
         }
@@ -344,7 +350,8 @@ fn check_viewport(l: u32, t: u32, rr: u32, b: u32, r: &mut Report) {
     for (nx, ny, nz) in [(-1.0f32, -1.0f32, 0.25f32), (1.0, 1.0, 0.5), (0.0, 0.0, 1.0), (-1.0, 1.0, 0.0), (0.5, -0.25, 0.75), (1.0, -1.0, 2.0)] {
         let got = m.apply_pt(&pt3(nx, ny, nz)).0;
         let want = [l as f64 + (nx as f64 + 1.0) / 2.0 * (rr as f64 - l as f64), t as f64 + (ny as f64 + 1.0) / 2.0 * (b as f64 - t as f64), nz as f64];
-        if (0..3).any(|k| (got[k] as f64 - want[k]).abs() > 1e-4 * (1.0 + want[k].abs())) {
+        r.margin("viewport", (0..3).map(|k| (got[k] as f64 - want[k]).abs() / (1.0 + want[k].abs())).fold(0.0, f64::max), 2e-6);
+        if (0..3).any(|k| (got[k] as f64 - want[k]).abs() > 2e-6 * (1.0 + want[k].abs())) {
             let odd = if (rr - l) % 2 == 1 || (b - t) % 2 == 1 { "odd-size" } else { "even-size" };
             r.violation(format!("viewport|{odd}|{l},{t},{rr},{b}|ndc=({nx},{ny})"), format!("viewport({l},{t})..({rr},{b}) maps NDC ({nx},{ny},{nz}) to {got:?}, expected {want:?}"), case());
             return;
@@ -397,7 +404,8 @@ fn check_camera(i: u64, r: &mut Report) {
     if clip[3] > 0.0 && visible {
         let ndc = [clip[0] / clip[3], clip[1] / clip[3], 1.0 / clip[3]];
         let s = cam.viewport.apply_pt(&pt3(ndc[0], ndc[1], ndc[2])).0;
-        if (s[0] as f64 - px).abs() > 1e-3 * (1.0 + vw) || (s[1] as f64 - py).abs() > 1e-3 * (1.0 + vh) || (s[2] as f64 - depth).abs() > 1e-3 * depth {
+        r.margin("camera-matrix", ((s[0] as f64 - px).abs() / (1.0 + vw)).max((s[1] as f64 - py).abs() / (1.0 + vh)).max((s[2] as f64 - depth).abs() / depth), 1e-5);
+        if (s[0] as f64 - px).abs() > 1e-5 * (1.0 + vw) || (s[1] as f64 - py).abs() > 1e-5 * (1.0 + vh) || (s[2] as f64 - depth).abs() > 1e-5 * depth {
             r.violation(format!("camera-matrix|{}|{dims:?}|{l},{t},{rr},{b}|focal={focal}|{w:?}", if ortho { "ortho" } else { "persp" }), format!("world {w:?} -> screen {s:?}, pinhole predicts ({px},{py}) depth {depth}"), case());
             return;
         }
@@ -467,6 +475,7 @@ fn check_first_person(i: u64, r: &mut Report) {
         let dl = (d[0] * d[0] + d[1] * d[1] + d[2] * d[2]).sqrt() * dist;
         // f32 accuracy: a few ulps of the coordinates involved (|pos| <= 6, distance <= 13)
         let tol = 1e-5 * dl as f64 + 4e-6 * (1.0 + pos.len() as f64);
+        r.margin("fp-look-at", (v[0].abs() as f64).max(v[1].abs() as f64).max((v[2] - dl).abs() as f64), tol);
         if (v[0].abs() as f64) > tol || (v[1].abs() as f64) > tol || ((v[2] - dl).abs() as f64) > tol {
             let vertical = d[0].abs() < 1e-2 && d[2].abs() < 1e-2;
             r.violation(format!("fp-look-at|{}|{desc}", if vertical { "vertical" } else { "general" }), format!("look-at target maps to view {v:?}, expected (0,0,{dl})"), case());
@@ -477,10 +486,12 @@ fn check_first_person(i: u64, r: &mut Report) {
     let md: D4 = m.0.map(|row| row.map(|x| x as f64));
     // rigid: det +1, columns orthonormal; pos -> origin
     let o = m.apply_pt(&pt3::<f32, World>(pos.x(), pos.y(), pos.z())).0;
-    if o.iter().any(|c| c.abs() > 1e-4 * (1.0 + pos.len())) { r.violation(format!("fp-origin|{desc}"), format!("camera position maps to {o:?}"), case()); return; }
+    r.margin("fp-origin", o.iter().fold(0.0f32, |m, c| m.max(c.abs())) as f64, 2e-6 * (1.0 + pos.len()) as f64);
+    if o.iter().any(|c| c.abs() > 2e-6 * (1.0 + pos.len())) { r.violation(format!("fp-origin|{desc}"), format!("camera position maps to {o:?}"), case()); return; }
     let det = det3(&md);
-    let mut ortho_ok = (det - 1.0).abs() <= 1e-3;
-    for a in 0..3 { for b in 0..3 { let d: f64 = (0..3).map(|k| md[k][a] * md[k][b]).sum(); if (d - if a == b { 1.0 } else { 0.0 }).abs() > 1e-3 { ortho_ok = false; } } }
+    r.margin("fp-rigid-det", (det - 1.0).abs(), 1e-5);
+    let mut ortho_ok = (det - 1.0).abs() <= 1e-5;
+    for a in 0..3 { for b in 0..3 { let d: f64 = (0..3).map(|k| md[k][a] * md[k][b]).sum(); if (d - if a == b { 1.0 } else { 0.0 }).abs() > 1e-5 { ortho_ok = false; } } }
     if !ortho_ok {
         let alt = fp.heading.alt().to_degs();
         r.violation(format!("fp-rigid|{}|{desc}", if alt.abs() > 89.5 { "straight-up-down" } else { "general" }), format!("world_to_view is not rigid: det {det}, matrix {:?}", m.0), case());
@@ -495,12 +506,14 @@ fn check_first_person(i: u64, r: &mut Report) {
         let q = [pos.x() as f64 + 2.0 * dir[0], pos.y() as f64 + 2.0 * dir[1], pos.z() as f64 + 2.0 * dir[2]];
         let got = apply_d(&md, q);
         let tol = 2e-5 + 4e-6 * (1.0 + pos.len() as f64);
+        r.margin("fp-heading-direction", got[0].abs().max(got[1].abs()).max((got[2] - 2.0).abs()), tol);
         if got[0].abs() > tol || got[1].abs() > tol || (got[2] - 2.0).abs() > tol { r.violation(format!("fp-heading-direction|{desc}"), format!("the point 2 units along the requested heading maps to view {got:?}, expected (0,0,2)"), case()); return; }
     }
     // forward direction of the heading maps to +z
     let f = fp.heading.to_cart();
     let fv = m.apply_pt(&pt3::<f32, World>(pos.x() + f.x() * 2.0, pos.y() + f.y() * 2.0, pos.z() + f.z() * 2.0)).0;
-    if fv[0].abs() > 2e-3 || fv[1].abs() > 2e-3 || (fv[2] - 2.0).abs() > 2e-3 { r.violation(format!("fp-forward|{desc}"), format!("pos + 2*heading maps to {fv:?}, expected (0,0,2)"), case()); return; }
+    r.margin("fp-forward", (fv[0].abs().max(fv[1].abs()).max((fv[2] - 2.0).abs())) as f64, 3e-5);
+    if fv[0].abs() > 3e-5 || fv[1].abs() > 3e-5 || (fv[2] - 2.0).abs() > 3e-5 { r.violation(format!("fp-forward|{desc}"), format!("pos + 2*heading maps to {fv:?}, expected (0,0,2)"), case()); return; }
     // translate: displacement along the camera's horizontal heading (z), right (x) and world up (y)
     let alt = fp.heading.alt().to_degs();
     if alt.abs() < 89.5 {
@@ -514,7 +527,8 @@ fn check_first_person(i: u64, r: &mut Report) {
             g.translate(vec3(delta[0], delta[1], delta[2]));
             let moved = [g.pos.x() as f64 - pos.x() as f64, g.pos.y() as f64 - pos.y() as f64, g.pos.z() as f64 - pos.z() as f64];
             let want = [0, 1, 2].map(|k| delta[0] as f64 * right[k] + delta[1] as f64 * [0.0, 1.0, 0.0][k] + delta[2] as f64 * fwd_h[k]);
-            if (0..3).any(|k| (moved[k] - want[k]).abs() > 2e-3 * 4.0) {
+            r.margin("fp-translate", (0..3).map(|k| (moved[k] - want[k]).abs()).fold(0.0, f64::max), 5e-5);
+            if (0..3).any(|k| (moved[k] - want[k]).abs() > 5e-5) {
                 r.violation(format!("fp-translate|{}|{desc}|delta={delta:?}", if alt.abs() > 1.0 { "pitched" } else { "level" }), format!("translate({delta:?}) moved the camera by {moved:?}, expected {want:?} (right {right:?}, horizontal forward {fwd_h:?}, up (0,1,0))"), case());
                 return;
             }
